@@ -50,6 +50,12 @@ func runC15(r *core.Run) {
 		}
 		for i := 0; i < nops && r.Violations() < 10; i++ {
 			s.RandomOp(cfg)
+			if i%25 == 12 {
+				// a locked coin through a deferred settlement: resolved by the monitor's own state check
+				// (first and third time) or by a quote poll, payment succeeded or failed
+				k := i / 25
+				s.DirectedLockedMelt(k%3 != 2, k%2 == 1)
+			}
 			if i%20 == 10 {
 				c15Freshness(r, s, fmt.Sprintf("%s/fresh%d", sig, i))
 			}
